@@ -104,6 +104,7 @@ struct KeyMeta {
     bool seam_surgery = false;
     bool top_reached = false;        ///< contains the largest admissible key (max-1)
     bool starts_lowest = false;
+    bool pow2_edge = false;
     bool excluded_known = false;     ///< a shape listed in KNOWN_FINDINGS.txt was removed from this case
     const char *size_class = "";
     uint64_t query_seed = 0;
@@ -124,6 +125,7 @@ struct GenOpts {
     bool allow_threads = true;
     bool dup_heavy = false;  ///< C11: more and longer duplicate runs
     bool unsigned_only = false;
+    bool pow2_span_edge = false; ///< Elias-Fano: 1/4 of the arrays end so that (last segment key - first key) is 2^k-3 .. 2^k (universe-size edge)
     const std::string *xkeys = nullptr;    ///< explicit keys from a replay file (run-length text), overrides the recipe
     const std::string *xthreads = nullptr; ///< explicit thread count from a replay file
 };
@@ -390,6 +392,24 @@ std::vector<K> gen_keys(TapeReader &t, const GenOpts &o, KeyMeta &meta) {
         }
     }
     if (m.empty()) m.push_back(cur);
+
+    // ---- Elias-Fano universe edge: cut the array so that it ends at first + 2^k - 2 + d, d in {-1,0,+1}, after a gap / as a run / one below
+    if (o.pow2_span_edge && t.chance(1, 4) && m.size() >= 2) {
+        i128 span = m.back() - m.front();
+        unsigned kmax = 2;
+        while (kmax < lat.width_bits && ((i128) 1 << kmax) <= span + 2) ++kmax;
+        unsigned k = 2 + (unsigned) t.below(kmax - 1); // 2 .. kmax
+        i128 top = m.front() + ((i128) 1 << k) - 2 + ((i128) t.below(3) - 1);
+        unsigned mode = (unsigned) t.below(3);
+        if (top > m.front() && top <= lat.hi) {
+            while (m.size() > 1 && m.back() >= top - (mode == 1 ? 1 : 0)) m.pop_back();
+            if (mode == 0) m.push_back(top);
+            else if (mode == 1) m.push_back(top - 1);
+            else m.push_back(top), m.push_back(top);
+            rec << " POW2EDGE(k=" << k << ",mode=" << mode << ")";
+            meta.pow2_edge = true;
+        }
+    }
 
     // ---- chunk geometry and seam surgery
     size_t n = m.size();
